@@ -30,6 +30,12 @@ func saveFidelity(root string, seed int64, tier string) (res *CaseResult) {
 		seqs = 150
 	}
 	canon := func(d *store.PersistedData) []byte {
+		if d == nil {
+			return []byte("nil")
+		}
+		if len(d.Jobs) == 0 {
+			return []byte(`{"Jobs":[]}`) // nil and empty job lists are the same snapshot
+		}
 		b, _ := json.Marshal(d)
 		return b
 	}
@@ -38,7 +44,7 @@ func saveFidelity(root string, seed int64, tier string) (res *CaseResult) {
 		_ = json.Unmarshal(canon(d), &c)
 		return &c
 	}
-	ops := []string{"identical", "status-same-length", "digit", "swap-jobs", "rename-same-length", "flip-bool", "add-job", "drop-job", "back-to-earlier", "exitcode"}
+	ops := []string{"identical", "status-same-length", "digit", "swap-jobs", "rename-same-length", "flip-bool", "add-job", "drop-job", "back-to-earlier", "exitcode", "drop-all", "reopen-store", "reopen-store-then-empty"}
 	for sq := 0; sq < seqs; sq++ {
 		r := rand.New(rand.NewSource(seed*31 + int64(sq)))
 		dir := filepath.Join(root, fmt.Sprintf("fidelity-%d", sq))
@@ -108,6 +114,19 @@ func saveFidelity(root string, seed int64, tier string) (res *CaseResult) {
 			case "back-to-earlier":
 				if len(history) > 1 {
 					next = clone(history[r.Intn(len(history))])
+				}
+			case "drop-all":
+				next.Jobs = []store.PersistedJob{}
+			case "reopen-store", "reopen-store-then-empty":
+				// a restart: a new store instance on the same directory continues the sequence
+				ns, err := store.NewJSONDataStore(dir)
+				if err != nil {
+					res.Inconclusive = err.Error()
+					return res
+				}
+				st = ns
+				if op == "reopen-store-then-empty" {
+					next.Jobs = []store.PersistedJob{}
 				}
 			case "exitcode":
 				if j := pick(); j != nil {
